@@ -28,8 +28,10 @@ pub enum Op {
     AcceptUnsolicited,
     /// PTR and TXT of an instance, no SRV
     DeliverPtrTxt,
+    /// the whole record set of another instance whose PTR has one second to live
+    DeliverFullDying,
 }
-pub const OPS: [Op; 17] = [
+pub const OPS: [Op; 18] = [
     Op::Browse,
     Op::BrowseDropOld,
     Op::BrowseCache,
@@ -47,6 +49,7 @@ pub const OPS: [Op; 17] = [
     Op::DropBrowseRx,
     Op::AcceptUnsolicited,
     Op::DeliverPtrTxt,
+    Op::DeliverFullDying,
 ];
 
 const TY: &str = "_t._tcp.local.";
@@ -315,7 +318,7 @@ impl Scenario for Scn {
         }
     }
     fn rule(&self) -> String {
-        "all sequences over {browse, browse again dropping the old receiver, dropping the receiver without a new browse, accept_unsolicited(true), browse_cache, stop_browse, resolve_hostname Foo.local. (no timeout / 1500 ms, mixed or lower case), stop_resolve_hostname in either case, shutdown, deliver PTR / PTR+TXT / full record set / address record, idle 3 s}, then silence for the horizon; states de-duplicated on daemon dump + channel bookkeeping".into()
+        "all sequences over {browse, browse again dropping the old receiver, dropping the receiver without a new browse, accept_unsolicited(true), browse_cache, stop_browse, resolve_hostname Foo.local. (no timeout / 1500 ms, mixed or lower case), stop_resolve_hostname in either case, shutdown, deliver PTR / PTR+TXT / full record set / full record set of an instance whose PTR has 1 s to live / address record, idle 3 s}, then silence for the horizon; states de-duplicated on daemon dump + channel bookkeeping".into()
     }
     fn setup(&self) -> Run {
         let mut w = World::one(lay_v4());
@@ -440,6 +443,12 @@ impl Scenario for Scn {
             }
             Op::DeliverPtrTxt => {
                 run.w.deliver(0, IF0, PEER0, build(&response(vec![inst.ptr(120), inst.txt(120)])));
+            }
+            Op::DeliverFullDying => {
+                let d = Inst::simple("dying", "dyinghost", [10, 0, 0, 11]);
+                let mut recs = d.all(120);
+                recs[0].ttl = 1;
+                run.w.deliver(0, IF0, PEER0, build(&response(recs)));
             }
             Op::DeliverAddr => {
                 run.w.deliver(0, IF0, PEER0, build(&response(vec![a(&n("FOO.local"), [10, 0, 0, 7], 120)])));
